@@ -193,7 +193,7 @@ def Stream.graphTriples (exc : PyErr) (s : Stream) : List (List Term) → List F
 /-- `GraphStream.graph` consumed to exhaustion (frames yielded before an exception are kept). -/
 def Stream.graph (exc : PyErr) (s : Stream) (graphId : Term) (triples : List (List Term)) :
     Stream × List Frame × Option PyErr :=
-  match s.enc.te.graph graphId with
+  match s.enc.te.startRow.graph graphId with
   | (te', .error e) => ({ s with enc := { s.enc with te := te' } }, [], some e)
   | (te', .ok (rows, w)) =>
     let s1 := ({ s with enc := { s.enc with te := te' } } : Stream).pushRows (rows ++ [Row.graphStart (some w)])
